@@ -1014,6 +1014,8 @@ MUTANTS = [
     _m("inverter-args-swapped", "            A, row_perm, col_perm, block_sizes\n", "            A, col_perm, row_perm, block_sizes\n", "R4", control=True),
     _m("cache-read-keys-swapped", "            row_perm = self._secondary_block_permutation[\"row_perm_indices\"]\n            col_perm = self._secondary_block_permutation[\"col_perm_indices\"]\n",
        "            row_perm = self._secondary_block_permutation[\"col_perm_indices\"]\n            col_perm = self._secondary_block_permutation[\"row_perm_indices\"]\n", "R4"),
+    _m("seed-cached-col-perm-read-from-row-key", "            col_perm = self._secondary_block_permutation[\"col_perm_indices\"]\n",
+       "            col_perm = self._secondary_block_permutation[\"row_perm_indices\"]\n", "R4"),
     _m("cache-write-swapped", "            self._secondary_block_permutation[\"col_perm_indices\"] = col_perm\n", "            self._secondary_block_permutation[\"col_perm_indices\"] = row_perm\n", "R4"),
     _m("producer-returns-cols-first", "    return row_perm, col_perm, block_sizes\n", "    return col_perm, row_perm, block_sizes\n", "R4", file=MO),
     _m("producer-lists-swapped", "            block_row_indices.extend(eq_rows_in_block)\n            block_col_indices.extend(var_cols_in_block)\n",
